@@ -192,7 +192,7 @@ def close(a: np.ndarray, b: np.ndarray, tol=1e-9) -> bool:
     fin = np.abs(np.where(np.isfinite(a), a, 0.0))
     scale = max(1.0, float(np.max(fin)) if len(a) else 1.0)
     with np.errstate(invalid="ignore"):
-        return bool(np.all(nan | (np.abs(a - b) <= tol * scale)))
+        return bool(np.all(nan | (a == b) | (np.abs(a - b) <= tol * scale)))
 
 
 def real_nested(samples, qidx, all_local):
